@@ -54,14 +54,15 @@ pub struct SockCase {
     /// 1 = absolute padded with "/." segments to the longest allowed length (107 bytes),
     /// 2 = relative to the working directory, 3 = relative and padded to 107 bytes,
     /// 4 = a path that does not fit into sockaddr_un (>= 108 bytes), 5 = a path with an
-    /// interior NUL: no receiver can exist there, every send must fail and be accounted for
+    /// interior NUL: no receiver can exist there, every send must fail and be accounted for,
+    /// 6 = a name that is not valid UTF-8 (symlink to the socket file)
     #[serde(default)]
     pub path_form: u8,
     pub ops: Vec<SOp>,
 }
 
 pub fn path_unusable(form: u8) -> bool {
-    form % 6 >= 4
+    matches!(form % 7, 4 | 5)
 }
 
 /// The same socket file spelled differently (see `SockCase::path_form`); falls back
@@ -107,7 +108,17 @@ fn spell_path(path: &std::path::Path, form: u8) -> PathBuf {
         p.pop();
         Some(p)
     };
-    match form % 6 {
+    match form % 7 {
+        6 => {
+            // a name that is not valid UTF-8 (a symlink to the socket file): paths are bytes
+            use std::os::unix::ffi::OsStrExt;
+            let link = std::path::Path::new(dir).join(std::ffi::OsStr::from_bytes(b"m\xe9triques\xff.sock"));
+            let _ = std::fs::remove_file(&link);
+            match std::os::unix::fs::symlink(file, &link) {
+                Ok(()) => link,
+                Err(_) => path.to_path_buf(),
+            }
+        }
         4 => PathBuf::from(format!("{}/{}", dir, "x".repeat(MAX + 13 - dir.len().min(MAX)))),
         5 => PathBuf::from(format!("{}/rx\0.sock", dir)),
         1 => pad("").map(PathBuf::from).unwrap_or_else(|| path.to_path_buf()),
@@ -1069,7 +1080,7 @@ pub fn sock_case(g: SGen) -> BoxedStrategy<SockCase> {
         ]
         .boxed(),
     };
-    (transport, buffered, any::<bool>(), prop::bool::weighted(g.queued_p), (0u8..3, prop_oneof![6 => Just(0u8), 2 => Just(1u8), 2 => Just(2u8), 2 => Just(3u8), 1 => Just(4u8), 1 => Just(5u8)]))
+    (transport, buffered, any::<bool>(), prop::bool::weighted(g.queued_p), (0u8..3, prop_oneof![6 => Just(0u8), 2 => Just(1u8), 2 => Just(2u8), 2 => Just(3u8), 1 => Just(4u8), 1 => Just(5u8), 2 => Just(6u8)]))
         .prop_flat_map(move |(transport, buffered, nonblocking, queued, (addr_form, path_form))| {
             let cap = buffered.map(|b| b.unwrap_or(512));
             let fault_ops = g.faults && transport == Transport::Unix;
@@ -1144,8 +1155,8 @@ impl Campaign for SockCampaign {
         }
         if case.transport == Transport::Unix && path_unusable(case.path_form) {
             classes.push("unix path that cannot be a socket address (too long / interior NUL): every send fails");
-        } else if case.transport == Transport::Unix && case.path_form % 6 != 0 {
-            classes.push("unix path given in a relative and/or maximal-length (107 bytes) spelling");
+        } else if case.transport == Transport::Unix && case.path_form % 7 != 0 {
+            classes.push("unix path given in a relative, maximal-length (107 bytes) or non-UTF-8 spelling");
         }
         if run.stats.failed_calls > 0 {
             classes.push("socket refused a datagram");
